@@ -1,0 +1,12 @@
+//go:build !verif
+
+/*
+ * SPDX-License-Identifier: Apache-2.0
+ */
+
+package badger
+
+import "github.com/dgraph-io/badger/v4/table"
+
+// verifTableIDs is only evaluated under the verif build tag.
+func verifTableIDs(tables []*table.Table) []uint64 { return nil }
